@@ -13,9 +13,9 @@ import coqgen
 CONF = {
     "C01": dict(kinds="sim,assess", n=(240, 2400), opts=["depth=2", "collide=0.05", "jit=0.2", "dkinds=0,1,2,4"]),
     "C02": dict(kinds="gen", n=(220, 2200), opts=["depth=2", "collide=0.02", "jit=0.15", "dkinds=0,1,2,4,4"]),
-    "C03": dict(kinds="hist", n=(200, 2000), opts=["depth=2", "collide=0", "ops=upd,back", "maxops=4"]),
-    "C04": dict(kinds="hist", n=(200, 2000), opts=["depth=2", "collide=0", "ops=regen", "maxops=3"]),
-    "C05": dict(kinds="hist", n=(160, 1600), opts=["depth=2", "collide=0", "ops=upd,regen,back", "maxops=8"]),
+    "C03": dict(kinds="hist", n=(200, 2000), opts=["depth=2", "collide=0", "ops=upd,back", "maxops=4", "mixture=0.15"]),
+    "C04": dict(kinds="hist", n=(200, 2000), opts=["depth=2", "collide=0", "ops=regen", "maxops=3", "mixture=0.25"]),
+    "C05": dict(kinds="hist", n=(160, 1600), opts=["depth=2", "collide=0", "ops=upd,regen,back", "maxops=8", "mixture=0.15"]),
 }
 
 SRC = ["src/genjax/core.py", "src/genjax/pjax.py"]
@@ -46,6 +46,42 @@ def nontrivial(c):
     if c["kind"] == "gen":
         return c.get("x") is not None
     return True
+
+
+def extra_stream(ctx, tag, kinds, n, opts, shards=2):
+    """run worker_gfi with the given options and judge the cases with Model/Corr.v; used by other
+    properties' runners that rest on GFI moves (C09: the regenerate weight mh accepts with)"""
+    import subprocess
+    import overlay
+    env_root = ctx.ensure_overlay()
+    env = overlay.env_for(env_root)
+    env["PYTHONPATH"] = env_root + os.pathsep + common.HARNESS
+    procs = []
+    for k in range(shards):
+        out = os.path.join(ctx.scratch, f"{tag}_{k}.json")
+        procs.append((out, subprocess.Popen([common.PY, os.path.join(common.HARNESS, "worker_gfi.py"), out,
+                                             str(ctx.seed * 1000 + 500 + k), str((n + shards - 1) // shards), kinds] + opts,
+                                            env=env, stdout=subprocess.PIPE, stderr=subprocess.PIPE, text=True, cwd=ctx.scratch)))
+    cases, files, worker_errs = [], [], []
+    for k, (out, pr) in enumerate(procs):
+        so, se = pr.communicate(timeout=3000)
+        if pr.returncode != 0 or not os.path.exists(out):
+            worker_errs.append(se[-1500:])
+            continue
+        cs = json.load(open(out))
+        vf = os.path.join(ctx.scratch, f"cases_{tag}_{k}.v")
+        open(vf, "w").write(coqgen.cases_file(cs))
+        files.append((vf, len(cases)))
+        cases.extend(cs)
+    res = common.eval_cases_files([f for f, _ in files])
+    bad, coq_errs = [], []
+    for vf, off in files:
+        r = res[vf]
+        if "error" in r:
+            coq_errs.append(r["error"])
+        else:
+            bad += [(off + i, a, s_, x) for (i, a, s_, x) in r["bad"]]
+    return cases, bad, worker_errs, coq_errs
 
 
 def run(ctx):
